@@ -194,15 +194,15 @@ Theorem statement_expand (x : xconfig) (xs : list (selem * sop)) :
   let m := xc_m x in
   let c := xc_o x in
   Forall (fun p => selem_ok (fst p) /\ jsx_ok (mc_jsx m) (fst p) /\ plain_name m (fst p)) xs ->
-  mc_text m = WNone -> html_family (mc_syntax m) ->
+  mc_text m = WNone -> mc_bem m = false -> html_family (mc_syntax m) ->
   oc_format c = false -> oc_comment_enabled c = false -> oc_format_leaf c = false ->
   Forall (fun p => elem_out_ok m c (fst p)) xs ->
   exists forest,
     expand_markup_str x (stmt_text xs) = Ok (render_forest c forest) /\
     apreNL 0 forest = map (fun p => (fst p, resolved_node (mc_reverse_attrs m) (snd p))) (edenote 0 xs).
 Proof.
-  cbv zeta. intros H Htext [Hs1 [Hs2 Hs3]] Hfmt Hcom Hleaf Hout.
-  destruct (statement_markup_parse (xc_m x) xs H Htext) as [forest [Hp Hpre]].
+  cbv zeta. intros H Htext Hbem [Hs1 [Hs2 Hs3]] Hfmt Hcom Hleaf Hout.
+  destruct (statement_markup_parse (xc_m x) xs H Htext Hbem) as [forest [Hp Hpre]].
   exists forest. split; [|exact Hpre].
   unfold expand_markup_str, expand_markup. rewrite Hp. cbn [bind].
   unfold stringify_markup. rewrite Hs1, Hs2, Hs3. f_equal.
